@@ -7,7 +7,7 @@ FAMILIES = [
 RULE = ("disp: L1 histories on the real dispensation keeper (sifapp.SetupWithBlacklist, CacheContext per message, ValidateBasic first): "
         "create-distribution (1-5 outputs, duplicate recipients, 1-3 denoms, amounts 1..2^70, a fifth of the recipients spelled in UPPER-CASE bech32 (same account; also both spellings in one distribution), blocked recipients = blacklisted address and "
         "two module accounts, invalid coins/addresses/types, poor distributors), run-distribution (aimed at a pending record 90%; other runner/"
-        "name/type 25%; counts 1..20 and 0, 21, -1), create-claim, blocks with the real BeginBlocker, funding, transfers; a directed "
+        "name/type 25%; counts 1..20 and 0, 21, -1), create-claim (a third in the account's other spelling), blocks with the real BeginBlocker, funding, transfers; a directed "
         "runner-merge history; a directed same-block history create(runner A)/run/claims re-filed/create(same distributor+type, runner B, overlapping recipients)/runs (full and partial); after every operation the whole module store (iteration order, raw keys) and 33 balances are compared with the "
         "model and the escrow / ledger / run / claims predicates are judged on the implementation's dump; non-trivial = accepted create/run/claim")
 TRUSTED_BASE = [
@@ -20,7 +20,7 @@ TRUSTED_BASE = [
 ASSUMPTIONS = [
     "the module account never signs: distributor != module account, no bank transfer out of the module account other than the module's own code (opOK)",
     "ecosystem pool address != module account (cfgOK)",
-    "recipients / runners are bech32 addresses (contain no '_') for the key-injectivity theorems",
+    "recipients / runners are bech32 addresses (contain no '_') for the key-injectivity theorems; a spelling (lower / all-upper case) and the account it decodes to are distinct in the model: record and distribution keys use the spelling, the bank, the blocked list and — since fix F28 — the claim keys use the account",
     "histories start from the empty module store (genesis import of records is not modelled)",
 ]
 UNPROVED = [
@@ -41,7 +41,7 @@ MANIFEST = {
             "pending + failed, per denom) and paid_at_most_once (per record key: paid + pending + failed = created). Tied to the code by "
             "regenerated facts (store prefixes, constants) and by differential execution of the real keeper (whole module store incl. raw keys and "
             "iteration order, 33 balances after every operation) with the theorems' own predicates judged on the implementation's dumps.",
-    "note": "Runner-merge semantics stated as in the code (second create in a block merges and overwrites AuthorizedRunner; replayed on the real "
+    "note": "Defect F28 (claims keyed by the spelling of the address: two claims of one type per account, claim not deleted when the record uses the other spelling) found by the spelling generators and repaired in /repo (fb5757434); reverting it is reported under disp.claim.one-per-account-and-type. Runner-merge semantics stated as in the code (second create in a block merges and overwrites AuthorizedRunner; replayed on the real "
             "keeper by a directed history). Trusted: Lean kernel (+propext, Classical.choice, Quot.sound), the hand-written model (tied only by the "
             "correspondence), harness/driver parsing and the harness' bookkeeping of observed created/paid amounts, x/bank and sdk.Coins (modelled), "
             "bech32 validity (abstracted), baseapp's per-tx cache (modelled). Unproved: converse acceptance of create (see unproved_statements).",
